@@ -84,12 +84,17 @@ static bool outer_empty(void) { return nondet_bool(); }
 static void outer_call(void) { if (g_outer_calls < 2) g_outer_calls++; g_qlen_seen = -1; }
 static int get_agent_storage(void) { return nondet_int(); }
 static bool custom_polling_busy(void) { g_qlen_seen = -1; return nondet_bool(); }
-static bool sp_has_scheduler_mode(scheduler_mode_t mode) { return nondet_bool(); }
+/* the scheduler mode is stable during one iteration; the enable_stealing bit is what static policies clear (C10: a non-stealing policy
+ * never moves a hinted task) -- the loop may ask the policy to steal (pending or staged tasks) only when the bit is set
+ * (added after seeded change C10-8 was missed) */
+static bool g_mode_stealing;
+static bool sp_has_scheduler_mode(scheduler_mode_t mode) { return mode == scheduler_mode_enable_stealing ? g_mode_stealing : nondet_bool(); }
 /* the block that executes the thread that was found: outside this unit (CutThen) */
 static void vx_found_thread(void) { g_found = true; }
 static bool sp_get_next_thread(size_t num_thread, bool running, thread_id_ref_type *thrd, bool enable_stealing)
 {
   VX_ASSERT(num_thread == g_num_thread, "get_next_thread: asked for this worker");
+  VX_ASSERT(!enable_stealing || g_mode_stealing, "get_next_thread is allowed to steal only if the scheduler mode has enable_stealing");
   if (g_gnt_calls < 2) g_gnt_calls++;
   g_gnt_result = nondet_bool();
   if (g_gnt_result) *thrd = 1;
@@ -98,6 +103,7 @@ static bool sp_get_next_thread(size_t num_thread, bool running, thread_id_ref_ty
 static bool sp_wait_or_add_new(size_t num_thread, bool running, int64_t *idle, bool enable_stealing, size_t *added_p)
 {
   VX_ASSERT(num_thread == g_num_thread, "wait_or_add_new: asked about this worker");
+  VX_ASSERT(!enable_stealing || g_mode_stealing, "wait_or_add_new is allowed to convert OTHER workers' staged tasks only if the scheduler mode has enable_stealing (static policies clear it)");
   if (g_wait_calls < 2) g_wait_calls++;
   *added_p = nondet_size();
   g_wait_result = nondet_bool();     /* true: nothing was added, nothing left to convert */
@@ -245,7 +251,7 @@ void harness(void)
   g_found = false; g_gnt_result = false; g_wait_result = false; g_cleaned = false; g_qlen_seen = -1; g_susp_seen = -1;
   g_all_wait = true; g_all_clean = true; g_all_empty = true; g_intf_pre = false; g_broke = false;
   g_gnt_calls = 0; g_wait_calls = 0; g_cleanup_calls = 0; g_qlen_calls = 0; g_cnt_calls = 0; g_suspend_calls = 0;
-  g_inner_calls = 0; g_outer_calls = 0;
+  g_inner_calls = 0; g_outer_calls = 0; g_mode_stealing = nondet_bool();
   lin_count = 0; g_reads = 0; g_interfered = false; g_after_step = false; g_stutters = 0; g_exchanged = false;
 #ifdef U_PROLOGUE
   may_exit = nondet_bool();
